@@ -317,9 +317,9 @@ def pool():
     return _POOL
 
 
-def pmap(fn, items, chunk=64):
+def pmap(fn, items, chunk=64, force=False):
     items = list(items)
-    if len(items) < 200:
+    if len(items) < 200 and not (force and len(items) > 1):
         return [fn(x) for x in items]
     return pool().map(fn, items, chunksize=chunk)
 
